@@ -237,15 +237,17 @@ Definition spec_arrays (cps : list corrprod) (scaled : bool) (vv : option (list 
    pts T F B (fun t f b => spec_weight scaled (a1 t f b) (a2 t f b) (wat t f b) (wcat t f)),
    pts T F B (fun t f b => spec_unscaled scaled (a1 t f b) (a2 t f b) (wat t f b) (wcat t f))).
 
-(* ((cps)|() scaled vvcode table B vis chv lostv w chw lostw wc chc lostc presel tch fch)
+(* ((cps)|() scaled vvcode table B vis chv lostv w chw lostw wc chc lostc presel tch fch)   vvcode: 0 'off', 1 'autocorr',
+   2 anything else, -1 = the constructor called without any option (regenerated defaults)
    -> (0 err) | (1 vis weights (unscaled)|() spec_vis spec_weights spec_unscaled)
    the spec arrays are present when corrprods are given (else: weights = stored product is compared by the harness) *)
 Definition wire_157 (x : sx) : sx :=
   match x with
   | L [cps; scaled; vvcode; table; B; vis; chv; lostv; w; chw; lostw; wc; chc; lostc; p; tch; fch] =>
-      let cps := to_cps_opt cps in
-      let scaled := to_bool scaled in
-      let vvo := vv_of_code (to_Z vvcode) in
+      let dflt := Z.eqb (to_Z vvcode) (-1) in          (* vvcode = -1: every option left out *)
+      let cps := if dflt then None else to_cps_opt cps in
+      let scaled := if dflt then vfw_default_scaled else to_bool scaled in
+      let vvo := vv_of_code (if dflt then vfw_default_van_vleck else to_Z vvcode) in
       let table := match to_table table with Some t => t | None => [] end in
       let B := to_nat B in
       let vis := to_arr3 to_cx vis in
